@@ -130,9 +130,32 @@ func (fm formula) translate(repo string) (string, error) {
 			if a != id.Name {
 				rename(a, id.Name)
 			}
+		case *ast.IfStmt:
+			// the clamp idiom `if x.GTE(y) { x = y }`  ==>  x := if y ≤ x then y else x   (pure, no bind)
+			if c, ok := s.Cond.(*ast.CallExpr); ok && s.Else == nil && s.Init == nil && len(s.Body.List) == 1 {
+				sel, ok1 := c.Fun.(*ast.SelectorExpr)
+				as, ok2 := s.Body.List[0].(*ast.AssignStmt)
+				if ok1 && ok2 && sel.Sel.Name == "GTE" && len(c.Args) == 1 && len(as.Lhs) == 1 && len(as.Rhs) == 1 {
+					x, okx := sel.X.(*ast.Ident)
+					lhs, okl := as.Lhs[0].(*ast.Ident)
+					if okx && okl && x.Name == lhs.Name && show2(c.Args[0]) == show2(as.Rhs[0]) {
+						xa, srt := t.atomAliased(x, alias)
+						ya, _ := t.atomAliased(c.Args[0], alias)
+						alias[x.Name] = fmt.Sprintf("(if %s ≤ %s then %s else %s)", ya, xa, ya, xa)
+						t.sorts[alias[x.Name]] = srt
+						continue
+					}
+				}
+			}
 		case *ast.ReturnStmt:
 			if want["return"] && len(s.Results) >= 1 {
-				a, _ := t.atomAliased(s.Results[0], alias)
+				res := s.Results[0]
+				if fm.argOf != "" {
+					if c, ok := res.(*ast.CallExpr); ok && len(c.Args) > fm.argIdx {
+						res = c.Args[fm.argIdx]
+					}
+				}
+				a, _ := t.atomAliased(res, alias)
 				retAtom = a
 			}
 		}
@@ -172,6 +195,16 @@ func (fm formula) translate(repo string) (string, error) {
 		sb.WriteString(t.render(result) + "\n")
 	}
 	return sb.String(), nil
+}
+
+func show2(e ast.Expr) string {
+	switch x := e.(type) {
+	case *ast.Ident:
+		return x.Name
+	case *ast.SelectorExpr:
+		return flatten(x)
+	}
+	return fmt.Sprintf("%p", e)
 }
 
 // atomAliased substitutes aliases (pure terms bound to Go locals) for identifiers
